@@ -276,12 +276,12 @@ func metaDigest(r *pdf.Reader) string {
 	var b strings.Builder
 	fmt.Fprintf(&b, "v=%v;", m.Version)
 	if m.Catalog != nil {
-		fmt.Fprintf(&b, "pages=%v;", m.Catalog.Pages)
+		fmt.Fprintf(&b, "pages=%v;mode=%v;layout=%v;lang=%v;nr=%v;", m.Catalog.Pages, m.Catalog.PageMode, m.Catalog.PageLayout, m.Catalog.Lang, m.Catalog.NeedsRendering)
 	} else {
 		b.WriteString("nocatalog;")
 	}
 	if m.Info != nil {
-		fmt.Fprintf(&b, "title=%q;", string(m.Info.Title))
+		fmt.Fprintf(&b, "title=%q;trapped=%v;custom=%v;", string(m.Info.Title), m.Info.Trapped, m.Info.Custom)
 	} else {
 		b.WriteString("noinfo;")
 	}
@@ -364,6 +364,16 @@ func scanAll(src io.ReaderAt, size int64, sentinel error) (string, error) {
 				fmt.Fprintf(&b, "read fails (malformed=%v);", pdf.IsMalformed(err))
 			}
 		}
+	}
+	// ... and the Reader made from the scan: its trailer, catalog and pages
+	rd, err := fi.MakeReader(nil)
+	switch {
+	case err == nil:
+		fmt.Fprintf(&b, "makereader: %s;", metaDigest(rd))
+	case errors.Is(err, sentinel):
+		return "", err
+	default:
+		fmt.Fprintf(&b, "makereader fails (malformed=%v);", pdf.IsMalformed(err))
 	}
 	return b.String(), nil
 }
